@@ -16,7 +16,8 @@ ASSUMPTIONS = [
 ]
 STUBS = ["vf.entropy.EntropyEnv: python `random` module, numpy.random namespace, global_prng, PCG64/Generator/default_rng/SeedSequence/RandomState constructors, time/os entropy reads",
          "pymoo minimize stub (GA components)", "linalg eigenvalue contract (jitter component)"]
-BOUNDS = {"quick": dict(program_length="<=2", components=14, taxa=2, markers=2), "thorough": dict(program_length="<=3", components=18, taxa="2-3", markers=2)}
+BOUNDS = {"quick": dict(program_length="<=2", components=18, taxa=2, markers=2, seeds="symbolic in [0,2^32) plus 0, 1, 2^32-1", shuffles="rotation classes"),
+          "thorough": dict(program_length="<=3", components=32, taxa="2-3", markers=2, seeds="symbolic in [0,2^32) plus 0, 1, 2^32-1", shuffles="rotation classes")}
 OUTSIDE = ["bit-level identity of the real Mersenne-Twister / PCG streams (numpy's and CPython's contract)", "pymoo's internal randomness and its own seeding of numpy.random",
            "hash-order or thread-scheduling dependent behaviour", "G_E_Phenotyping (pandas data frames: see C14)"]
 
